@@ -6,6 +6,7 @@ import (
 	"io"
 	"math/rand"
 	"net"
+	"strings"
 	"sync"
 	"sync/atomic"
 	"syscall"
@@ -692,6 +693,14 @@ func init() {
 		Batches:     func(t string) int { return map[string]int{"quick": 4, "thorough": 12}[t] },
 		Parallel:    func(t string) int { return 4 },
 		Timeout:     func(t string) time.Duration { return 25 * time.Minute },
+		RaceUpgrade: func(report string) (string, bool) {
+			// the reload machinery of the binary (package main) is single-threaded by design: a data race
+			// in it means two reloads (or a reload and a stop) ran at the same time
+			if strings.Contains(report, "main.(*OutlineServer)") || strings.Contains(report, "main.RunOutlineServer") {
+				return "C11/reloads-not-serialised", true
+			}
+			return "", false
+		},
 		Run: func(c *vk.Ctx) {
 			for _, s := range []string{"reloads", "exchanges_ok", "exchanges_started_inside_reload_window", "datagrams_exactly_once", "idle_relays_alive_after_reloads", "half_closed_relays_completed_after_reloads", "mid_transfer_chunks_echoed", "in_process_relays_completed_across_listener_close", "quiet_reloads_first_datagram_served"} {
 				c.Require(s)
